@@ -50,6 +50,7 @@ Inductive spc :=
 | SExiting                   (* saw _closing_selector, left the block, returning *)
 | STaken (r w : fds)         (* took the snapshot, cleared _select_args, left the block *)
 | SSelecting (r w : fds)     (* inside select.select(r, w, w) *)
+| SErr                       (* select raised EBADF/WSAENOTSOCK; about to poll the waker alone *)
 | SGot (rs ws : fds)         (* select returned, about to call_soon_threadsafe *)
 | SDone.                     (* _run_select returned: thread stopped *)
 
@@ -64,11 +65,14 @@ Inductive label :=
 | Callback (k : kind) (f : fd)     (* a user callback runs *)
 | WakerRecv (n : nat)              (* _consume_waker: _waker_r.recv(1024) returned n bytes *)
 | CloseEnter | Joined | CloseReturn
+| CloseFd (f : fd)                 (* user code closes an fd it has unregistered (os.close / sock.close) *)
 (* condition variable, either thread *)
 | Acquire | Release | Notify | Wait | Woke
 (* selector thread *)
 | SelectCall (r w : fds)           (* select.select(r, w, w) entered *)
 | SelectRet (rs ws xs : fds)       (* ... returned (rs, ws, xs) *)
+| SelectErr                        (* ... raised OSError(EBADF): an fd of the snapshot was closed meanwhile *)
+| WakerPoll (b : bool)             (* select.select([_waker_r.fileno()], [], [], 0) returned non-empty / empty *)
 | Post (rs ws : fds)               (* call_soon_threadsafe(_handle_select, rs, ws) *)
 | Exit                             (* _run_select returns *)
 (* environment *)
@@ -84,26 +88,28 @@ Record state := mk {
   pend : bool;                   (* a dict update happened, its _wake_selector() has not yet sent *)
   queue : list snap;             (* _handle_select calls queued on the event loop *)
   rdy_r : fds; rdy_w : fds;      (* environment: user fds currently readable / writable *)
-  cbs : list (thread * kind * fd) (* log: which thread ran which callback *)
+  cbs : list (thread * kind * fd); (* log: which thread ran which callback *)
+  dead : fds                     (* environment: user fds that have been closed *)
 }.
 
 Definition init : state :=
-  mk LNew SNotStarted None None false [] [] 0 false [] [] [] [].
+  mk LNew SNotStarted None None false [] [] 0 false [] [] [] [] [].
 
 (* ---- field updates ---- *)
-Definition set_lp s v := mk v (sp s) (lock s) (args s) (closing s) (readers s) (writers s) (waker s) (pend s) (queue s) (rdy_r s) (rdy_w s) (cbs s).
-Definition set_sp s v := mk (lp s) v (lock s) (args s) (closing s) (readers s) (writers s) (waker s) (pend s) (queue s) (rdy_r s) (rdy_w s) (cbs s).
-Definition set_lock s v := mk (lp s) (sp s) v (args s) (closing s) (readers s) (writers s) (waker s) (pend s) (queue s) (rdy_r s) (rdy_w s) (cbs s).
-Definition set_args s v := mk (lp s) (sp s) (lock s) v (closing s) (readers s) (writers s) (waker s) (pend s) (queue s) (rdy_r s) (rdy_w s) (cbs s).
-Definition set_closing s v := mk (lp s) (sp s) (lock s) (args s) v (readers s) (writers s) (waker s) (pend s) (queue s) (rdy_r s) (rdy_w s) (cbs s).
-Definition set_readers s v := mk (lp s) (sp s) (lock s) (args s) (closing s) v (writers s) (waker s) (pend s) (queue s) (rdy_r s) (rdy_w s) (cbs s).
-Definition set_writers s v := mk (lp s) (sp s) (lock s) (args s) (closing s) (readers s) v (waker s) (pend s) (queue s) (rdy_r s) (rdy_w s) (cbs s).
-Definition set_waker s v := mk (lp s) (sp s) (lock s) (args s) (closing s) (readers s) (writers s) v (pend s) (queue s) (rdy_r s) (rdy_w s) (cbs s).
-Definition set_pend s v := mk (lp s) (sp s) (lock s) (args s) (closing s) (readers s) (writers s) (waker s) v (queue s) (rdy_r s) (rdy_w s) (cbs s).
-Definition set_queue s v := mk (lp s) (sp s) (lock s) (args s) (closing s) (readers s) (writers s) (waker s) (pend s) v (rdy_r s) (rdy_w s) (cbs s).
-Definition set_rdy_r s v := mk (lp s) (sp s) (lock s) (args s) (closing s) (readers s) (writers s) (waker s) (pend s) (queue s) v (rdy_w s) (cbs s).
-Definition set_rdy_w s v := mk (lp s) (sp s) (lock s) (args s) (closing s) (readers s) (writers s) (waker s) (pend s) (queue s) (rdy_r s) v (cbs s).
-Definition set_cbs s v := mk (lp s) (sp s) (lock s) (args s) (closing s) (readers s) (writers s) (waker s) (pend s) (queue s) (rdy_r s) (rdy_w s) v.
+Definition set_lp s v := mk v (sp s) (lock s) (args s) (closing s) (readers s) (writers s) (waker s) (pend s) (queue s) (rdy_r s) (rdy_w s) (cbs s) (dead s).
+Definition set_sp s v := mk (lp s) v (lock s) (args s) (closing s) (readers s) (writers s) (waker s) (pend s) (queue s) (rdy_r s) (rdy_w s) (cbs s) (dead s).
+Definition set_lock s v := mk (lp s) (sp s) v (args s) (closing s) (readers s) (writers s) (waker s) (pend s) (queue s) (rdy_r s) (rdy_w s) (cbs s) (dead s).
+Definition set_args s v := mk (lp s) (sp s) (lock s) v (closing s) (readers s) (writers s) (waker s) (pend s) (queue s) (rdy_r s) (rdy_w s) (cbs s) (dead s).
+Definition set_closing s v := mk (lp s) (sp s) (lock s) (args s) v (readers s) (writers s) (waker s) (pend s) (queue s) (rdy_r s) (rdy_w s) (cbs s) (dead s).
+Definition set_readers s v := mk (lp s) (sp s) (lock s) (args s) (closing s) v (writers s) (waker s) (pend s) (queue s) (rdy_r s) (rdy_w s) (cbs s) (dead s).
+Definition set_writers s v := mk (lp s) (sp s) (lock s) (args s) (closing s) (readers s) v (waker s) (pend s) (queue s) (rdy_r s) (rdy_w s) (cbs s) (dead s).
+Definition set_waker s v := mk (lp s) (sp s) (lock s) (args s) (closing s) (readers s) (writers s) v (pend s) (queue s) (rdy_r s) (rdy_w s) (cbs s) (dead s).
+Definition set_pend s v := mk (lp s) (sp s) (lock s) (args s) (closing s) (readers s) (writers s) (waker s) v (queue s) (rdy_r s) (rdy_w s) (cbs s) (dead s).
+Definition set_queue s v := mk (lp s) (sp s) (lock s) (args s) (closing s) (readers s) (writers s) (waker s) (pend s) v (rdy_r s) (rdy_w s) (cbs s) (dead s).
+Definition set_rdy_r s v := mk (lp s) (sp s) (lock s) (args s) (closing s) (readers s) (writers s) (waker s) (pend s) (queue s) v (rdy_w s) (cbs s) (dead s).
+Definition set_rdy_w s v := mk (lp s) (sp s) (lock s) (args s) (closing s) (readers s) (writers s) (waker s) (pend s) (queue s) (rdy_r s) v (cbs s) (dead s).
+Definition set_cbs s v := mk (lp s) (sp s) (lock s) (args s) (closing s) (readers s) (writers s) (waker s) (pend s) (queue s) (rdy_r s) (rdy_w s) v (dead s).
+Definition set_dead s v := mk (lp s) (sp s) (lock s) (args s) (closing s) (readers s) (writers s) (waker s) (pend s) (queue s) (rdy_r s) (rdy_w s) (cbs s) v.
 
 (* ---- small list functions ---- *)
 Fixpoint mem (x : fd) (l : fds) : bool :=
@@ -127,6 +133,8 @@ Definition set_regs (k : kind) (s : state) (v : fds) : state :=
 (* what select() sees *)
 Definition readable (s : state) (f : fd) : bool := if f =? 0 then 0 <? waker s else mem f (rdy_r s).
 Definition writable (s : state) (f : fd) : bool := mem f (rdy_w s).
+(* select() raises EBADF iff one of the fds it was given has been closed *)
+Definition has_dead (s : state) (a : snap) : bool := existsb (fun f => mem f (dead s)) (fst a ++ snd a).
 
 (* _handle_select's two for-loops: the next fd whose callback is still
    registered (KeyError => skipped), with what remains after it *)
@@ -164,7 +172,7 @@ Definition step_loop (s : state) (l : label) : option state :=
                 | KR, 0 => Some (set_pend (set_readers (set_lp s LInit) (ins 0 (readers s))) true)
                 | _, _ => None
                 end
-      | p => if user_pc p && negb (f =? 0)
+      | p => if user_pc p && negb (f =? 0) && negb (mem f (dead s))
              then Some (set_pend (set_regs k s (ins f (regs k s))) true)   (* store, then _wake_selector *)
              else None
       end
@@ -275,6 +283,12 @@ Definition step_loop (s : state) (l : label) : option state :=
       | LCloseFin => Some (set_lp s LClosed)
       | _ => None
       end
+  | CloseFd f =>
+      (* the legal sequence: an fd is closed only after it was unregistered (remove_* has returned) *)
+      if pend s then None else
+      if user_pc (lp s) && negb (f =? 0) && negb (mem f (readers s)) && negb (mem f (writers s)) && negb (mem f (dead s))
+      then Some (set_dead s (f :: dead s))
+      else None
   | _ => None
   end.
 
@@ -320,9 +334,21 @@ Definition step_sel (s : state) (l : label) : option state :=
       match sp s with
       | SSelecting r w =>
           if fds_eqb rs (filter (readable s) r) && fds_eqb ws (filter (writable s) w)
-             && fds_eqb xs [] && negb (fds_eqb (rs ++ ws) [])
+             && fds_eqb xs [] && negb (fds_eqb (rs ++ ws) []) && negb (has_dead s (r, w))
           then Some (set_sp s (SGot rs (ws ++ xs)))
           else None
+      | _ => None
+      end
+  | SelectErr =>
+      match sp s with
+      | SSelecting r w => if has_dead s (r, w) then Some (set_sp s SErr) else None
+      | _ => None
+      end
+  | WakerPoll b =>
+      (* `if rs: ws = []` else re-raise (the thread would die: no step).  rs is [_waker_r.fileno()], an int
+         that is not a key of _readers, so _handle_select will skip it: the report is modelled as empty *)
+      match sp s with
+      | SErr => if b && (0 <? waker s) then Some (set_sp s (SGot [] [])) else None
       | _ => None
       end
   | Post rs ws =>
@@ -371,7 +397,7 @@ Definition in_flight (s : state) : option snap :=
 
 (* where the single "select token" is *)
 Definition tok_args s := match args s with Some _ => 1 | None => 0 end.
-Definition tok_sel s := match sp s with STaken _ _ | SSelecting _ _ | SGot _ _ => 1 | _ => 0 end.
+Definition tok_sel s := match sp s with STaken _ _ | SSelecting _ _ | SErr | SGot _ _ => 1 | _ => 0 end.
 Definition tok_loop s := match lp s with LSpawn | LStartWant | LStartHeld | LHandle _ _ => 1 | _ => 0 end.
 Definition tokens s := tok_args s + tok_sel s + length (queue s) + tok_loop s.
 
@@ -383,7 +409,7 @@ Definition spawned (s : state) : bool := match sp s with SNotStarted => false | 
 Definition internal (l : label) : bool :=
   match l with
   | Add KR 0 | Remove KR 0 => true      (* SelectorThread's own registration of its waker *)
-  | Add _ _ | Remove _ _ | CloseEnter | EnvR _ _ | EnvW _ _ => false
+  | Add _ _ | Remove _ _ | CloseEnter | CloseFd _ | EnvR _ _ | EnvW _ _ => false
   | _ => true
   end.
 
@@ -398,7 +424,7 @@ Definition quiescent (s : state) : Prop :=
    waits in join() *)
 Definition sel_rank (s : state) : nat :=
   match sp s with
-  | STaken _ _ => 9 | SSelecting _ _ => 8 | SGot _ _ => 7
+  | STaken _ _ => 10 | SSelecting _ _ => 9 | SErr => 8 | SGot _ _ => 7
   | SWaiting => 6 | SNotified => 5 | STop => 4 | SHeld => 3 | SExiting => 1
   | SDone => 0 | SNotStarted => 0
   end.
@@ -425,25 +451,28 @@ Definition selcost (p : spc) : nat :=
 
 (* an upper bound on the number of internal steps before [Callback k f] *)
 Definition dist (k : kind) (f : fd) (s : state) : nat :=
-  let unc (a : snap) := if inl k f a then 0 else 12 + nregs s in
+  let U := 14 + nregs s in
+  let unc1 (a : snap) := if inl k f a && negb (has_dead s a) then 0 else U in   (* before the select *)
+  let unc2 (a : snap) := if inl k f a then 0 else U in                          (* after it *)
   (if pend s then 1 else 0) + selcost (sp s) +
   match lp s with
-  | LInit => 15 + nregs s
-  | LSpawn => 12 + nregs s
-  | LStartWant => 11 + nregs s
-  | LStartHeld => 10 + nregs s
-  | LHandle rs ws => slen (rs, ws) + unc (rs, ws)
+  | LInit => 17 + nregs s
+  | LSpawn => 14 + nregs s
+  | LStartWant => 13 + nregs s
+  | LStartHeld => 12 + nregs s
+  | LHandle rs ws => slen (rs, ws) + unc2 (rs, ws)
   | LStartNotified | LRun =>
       (match lp s with LStartNotified => 1 | _ => 0 end) +
       match args s with
-      | Some a => 6 + slen a + unc a
+      | Some a => 8 + slen a + unc1 a
       | None =>
           match sp s with
-          | STaken r w => 6 + slen (r, w) + unc (r, w)
-          | SSelecting r w => 5 + slen (r, w) + unc (r, w)
-          | SGot rs ws => 4 + slen (rs, ws) + unc (rs, ws)
+          | STaken r w => 8 + slen (r, w) + unc1 (r, w)
+          | SSelecting r w => 7 + slen (r, w) + unc1 (r, w)
+          | SErr => 5 + U
+          | SGot rs ws => 4 + slen (rs, ws) + unc2 (rs, ws)
           | _ => match queue s with
-                 | q :: _ => 1 + slen q + unc q
+                 | q :: _ => 1 + slen q + unc2 q
                  | [] => 0
                  end
           end
@@ -458,7 +487,7 @@ Definition is_target (k : kind) (f : fd) (l : label) : bool :=
 Definition selpot (s : state) : nat :=
   (match sp s with
    | STop => 4 | SHeld => 3 | SNotified => 4 | SWaiting => 1 | SExiting => 1
-   | STaken _ _ => 8 | SSelecting _ _ => 7 | SGot _ _ => 6
+   | STaken _ _ => 9 | SSelecting _ _ => 8 | SErr => 7 | SGot _ _ => 6
    | SDone => 0 | SNotStarted => 0
    end) + (match args s with Some _ => 8 | None => 0 end).
 Definition closecost (p : lpc) : nat :=
